@@ -40,7 +40,9 @@ impl SymbolTable {
     // PROVED-BY: unit c09_names (wrapper) - the per-context part is not decided
     #[verifier::external_body]
     pub fn define(&mut self, name: &str) -> (s: Symbol)
-        ensures s == sym_define_symbol(*old(self), name@), *final(self) == sym_after_define(*old(self), name@)
+        ensures s == sym_define_symbol(*old(self), name@), *final(self) == sym_after_define(*old(self), name@),
+                sym_depth(*final(self)) == sym_depth(*old(self)), sym_contexts(*final(self)) == sym_contexts(*old(self)),
+                sym_params(*final(self)) == sym_params(*old(self)).push(name@)
     { unimplemented!() }
 }
 pub struct Builtin { pub byte: u8 }
@@ -59,6 +61,22 @@ pub mod builtins {
 pub fn mem_take_vec<T>(v: &mut Vec<T>) -> (r: Vec<T>) ensures r@ == old(v)@, final(v)@.len() == 0 { std::mem::take(v) }
 
 pub uninterp spec fn sym_reset(t: SymbolTable) -> SymbolTable;
+/// ghost measures of the (opaque) symbol table: how many block scopes are open in the current context, how many
+/// function contexts are open. NOT DECIDED for Context internals; the wrappers are unit c09_names.
+pub uninterp spec fn sym_depth(t: SymbolTable) -> int;
+pub uninterp spec fn sym_contexts(t: SymbolTable) -> int;
+pub uninterp spec fn sym_params(t: SymbolTable) -> Seq<Seq<char>>;   // names declared in the current context since it was opened
+pub uninterp spec fn sym_max_size(t: SymbolTable) -> usize;
+impl SymbolTable {
+    #[verifier::external_body]
+    pub fn enter_scope(&mut self) ensures sym_depth(*final(self)) == sym_depth(*old(self)) + 1, sym_contexts(*final(self)) == sym_contexts(*old(self)) { unimplemented!() }
+    #[verifier::external_body]
+    pub fn leave_scope(&mut self) ensures sym_depth(*final(self)) == sym_depth(*old(self)) - 1, sym_contexts(*final(self)) == sym_contexts(*old(self)) { unimplemented!() }
+    #[verifier::external_body]
+    pub fn new_context(&mut self) ensures sym_contexts(*final(self)) == sym_contexts(*old(self)) + 1, sym_depth(*final(self)) == 0, sym_params(*final(self)) == Seq::<Seq<char>>::empty() { unimplemented!() }
+    #[verifier::external_body]
+    pub fn leave_context(&mut self) -> (n: usize) ensures sym_contexts(*final(self)) == sym_contexts(*old(self)) - 1, n == sym_max_size(*old(self)) { unimplemented!() }
+}
 impl SymbolTable {
     // NOT DECIDED (src/symbols.rs Context internals): truncates to the global context's outermost scope
     #[verifier::external_body]
@@ -70,10 +88,11 @@ pub uninterp spec fn sym_after_define(t: SymbolTable, name: Seq<char>) -> Symbol
 pub struct LoopContext { pub start: usize, pub break_instructions: Vec<usize> }
 
 /// ghost log of the recursive code-generation calls made so far (which sub-tree, in which order)
-pub enum LogWhat { E(Expr), B(Seq<Stmt>), Stops(Seq<usize>) }
-pub ghost struct LogEntry { pub what: LogWhat, pub start: int, pub end: int }
-pub open spec fn entry_e(e: Expr, pre: Compiler, post: Compiler) -> LogEntry { LogEntry { what: LogWhat::E(e), start: pre.instructions@.len() as int, end: post.instructions@.len() as int } }
-pub open spec fn entry_b(b: Seq<Stmt>, pre: Compiler, post: Compiler) -> LogEntry { LogEntry { what: LogWhat::B(b), start: pre.instructions@.len() as int, end: post.instructions@.len() as int } }
+pub enum LogWhat { E(Expr), B(Seq<Stmt>), S(Stmt), Stops(Seq<usize>) }
+/// `depth` / `contexts`: block-scope depth and number of function contexts of the symbol table when the call was made
+pub ghost struct LogEntry { pub what: LogWhat, pub start: int, pub end: int, pub depth: int, pub contexts: int }
+pub open spec fn entry_e(e: Expr, pre: Compiler, post: Compiler) -> LogEntry { LogEntry { what: LogWhat::E(e), start: pre.instructions@.len() as int, end: post.instructions@.len() as int, depth: sym_depth(pre.symbols), contexts: sym_contexts(pre.symbols) } }
+pub open spec fn entry_s(st: Stmt, pre: Compiler, post: Compiler) -> LogEntry { LogEntry { what: LogWhat::S(st), start: pre.instructions@.len() as int, end: post.instructions@.len() as int, depth: sym_depth(pre.symbols), contexts: sym_contexts(pre.symbols) } }
 
 pub struct Compiler {
     /// GHOST (not in the real struct, never constructed by extracted code): see LogEntry
@@ -122,11 +141,35 @@ pub open spec fn gen_post(pre: Compiler, post: Compiler, ok: bool) -> bool {
         })
     &&& pre.constants@.len() <= post.constants@.len()
     &&& (forall|i: int| 0 <= i < pre.constants@.len() ==> post.constants@[i] == pre.constants@[i])
+    &&& (ok ==> sym_depth(post.symbols) == sym_depth(pre.symbols) && sym_contexts(post.symbols) == sym_contexts(pre.symbols))
 }
 
 /// value of the placeholder operand (src/compiler.rs JUMP_PLACEHOLDER); every placeholder is overwritten, so the
 /// number itself is irrelevant to the contracts
 pub const JUMP_PLACEHOLDER: u16 = 1337;
+
+/// what compile_block_statement does (verified on its real body in unit c02_blocks): an empty block is exactly one
+/// Null and touches neither scopes nor the log; a non-empty block compiles EVERY statement, in order, back to back,
+/// ONE SCOPE DEEPER than the block itself (ghost log entries of the statement generator), and returns to the block's
+/// own depth.
+pub open spec fn block_post(pre: Compiler, post: Compiler, stmts: Seq<Stmt>, ok: bool) -> bool {
+    let k = pre.log@.len() as int;
+    let m = stmts.len() as int;
+    &&& (m == 0 ==> ok && post.instructions@ == pre.instructions@.push(opcode_byte(OpCode::Null)) && post.symbols == pre.symbols && post.log@ == pre.log@
+            && post.last_instruction == Some(OpCode::Null) && post.loop_contexts == pre.loop_contexts && post.constants == pre.constants)
+    &&& ((m > 0 && ok) ==> {
+            &&& post.log@.len() == k + m
+            &&& (forall|i: int| 0 <= i < k ==> #[trigger] post.log@[i] == pre.log@[i])
+            &&& (forall|j: int| 0 <= j < m ==> #[trigger] post.log@[k + j].what == LogWhat::S(stmts[j])
+                    && post.log@[k + j].depth == sym_depth(pre.symbols) + 1 && post.log@[k + j].contexts == sym_contexts(pre.symbols))
+            &&& post.log@[k].start == pre.instructions@.len()
+            &&& (forall|j: int| 0 <= j < m - 1 ==> #[trigger] post.log@[k + j].end == post.log@[k + j + 1].start)
+            &&& post.log@[k + m - 1].end == post.instructions@.len()
+            &&& sym_depth(post.symbols) == sym_depth(pre.symbols) && sym_contexts(post.symbols) == sym_contexts(pre.symbols)
+        })
+    &&& is_prefix(pre.instructions@, post.instructions@) && gen_inv(post)
+    &&& (ok ==> post.instructions@.len() > pre.instructions@.len())
+}
 
 pub open spec fn le16(v: int) -> Seq<u8> { seq![(v % 256) as u8, (v / 256) as u8] }
 /// frame condition of the emit helpers: only the code buffer (and last_instruction for emit_opcode) changes
@@ -134,10 +177,11 @@ pub open spec fn same_but_code(a: Compiler, b: Compiler) -> bool {
     a.symbols == b.symbols && a.constants == b.constants && a.loop_contexts == b.loop_contexts && a.log@ == b.log@
 }
 pub open spec fn is_prefix(a: Seq<u8>, b: Seq<u8>) -> bool { a.len() <= b.len() && forall|k: int| 0 <= k < a.len() ==> #[trigger] b[k] == a[k] }
-/// global invariant of the code buffer that the last-instruction peephole relies on: if the last opcode
-/// emitted is remembered as Pop, the last byte of the buffer IS that Pop
+/// global invariant of the code buffer that the last-instruction peepholes rely on: if the last opcode emitted is
+/// remembered as Pop (resp. ReturnValue), the last byte of the buffer IS that opcode (both have no operands)
+pub open spec fn no_operand_tail(op: OpCode) -> bool { op == OpCode::Pop || op == OpCode::ReturnValue }
 pub open spec fn peephole_inv(c: Compiler) -> bool {
-    c.last_instruction == Some(OpCode::Pop) ==> (c.instructions@.len() > 0 && c.instructions@.last() == opcode_byte(OpCode::Pop))
+    (c.last_instruction is Some && no_operand_tail(c.last_instruction->Some_0)) ==> (c.instructions@.len() > 0 && c.instructions@.last() == opcode_byte(c.last_instruction->Some_0))
 }
 
 impl Compiler {
@@ -152,13 +196,13 @@ impl Compiler {
     fn emit_u8(&mut self, v: u8)
         ensures final(self).instructions@ == old(self).instructions@.push(v), final(self).last_instruction == old(self).last_instruction, same_but_code(*old(self), *final(self)),
                 // DERIVED (lemma_emit_operand_inv, unit c11_control)
-                (gen_inv(*old(self)) && old(self).last_instruction != Some(OpCode::Pop)) ==> gen_inv(*final(self)),
+                (gen_inv(*old(self)) && !(old(self).last_instruction is Some && no_operand_tail(old(self).last_instruction->Some_0))) ==> gen_inv(*final(self)),
     { unimplemented!() }
     #[verifier::external_body]
     fn emit_u16(&mut self, v: u16)
         ensures final(self).instructions@ == old(self).instructions@ + le16(v as int), final(self).last_instruction == old(self).last_instruction, same_but_code(*old(self), *final(self)),
                 // DERIVED (lemma_emit_operand_inv, unit c11_control)
-                (gen_inv(*old(self)) && old(self).last_instruction != Some(OpCode::Pop)) ==> gen_inv(*final(self)),
+                (gen_inv(*old(self)) && !(old(self).last_instruction is Some && no_operand_tail(old(self).last_instruction->Some_0))) ==> gen_inv(*final(self)),
     { unimplemented!() }
     // PROVED-BY: O10.1 c10_add_constant (Kani, bounded pool): the returned slot holds the value; earlier slots unchanged
     #[verifier::external_body]
@@ -202,15 +246,26 @@ impl Compiler {
             gen_post(*old(self), *final(self), r is Ok),
     { unimplemented!() }
     #[verifier::external_body]
+    fn compile_statement(&mut self, stmt: &Stmt) -> (r: Result<(), Error>)
+        requires gen_inv(*old(self))
+        ensures
+            final(self).log@ == old(self).log@.push(entry_s(*stmt, *old(self), *final(self))),
+            gen_post(*old(self), *final(self), r is Ok),
+    { unimplemented!() }
+    // block_post: PROVED-BY unit c02_blocks (verbatim body). gen_post: induction hypothesis (assumed).
+    #[verifier::external_body]
     fn compile_block_statement(&mut self, stmts: &[Stmt]) -> (r: Result<(), Error>)
         requires gen_inv(*old(self))
         ensures
-            final(self).log@ == old(self).log@.push(entry_b(stmts@, *old(self), *final(self))),
+            block_post(*old(self), *final(self), stmts@, r is Ok),
             gen_post(*old(self), *final(self), r is Ok),
     { unimplemented!() }
 }
 
 impl Object {
+    // PROVED-BY: O15.4 c15_function_roundtrip
+    #[verifier::external_body]
+    pub fn function(ip: u32, num_locals: u16) -> (o: Object) ensures spec_tag(o) == Type::Function, spec_fn_ip(o) == ip, spec_fn_locals(o) == num_locals { unimplemented!() }
     // PROVED-BY: unit c06_arith (verbatim body of Object::checked_int)
     #[verifier::external_body]
     pub fn checked_int(value: Option<isize>) -> (r: Result<Object, Error>)
